@@ -188,6 +188,12 @@ func genXport(r *rng, seed uint64, focus, arm string) *plan.Plan {
 			case 3:
 				act.Kind = "reply_many"
 				act.Arg = r.rng(3, 6)
+			case 5:
+				if kind == "udp" {
+					// truncated over UDP, and the TCP leg fails: the caller gets
+					// an error, not some message
+					t.Acts = []plan.UpAction{{Kind: "truncate_udp", DelayUs: r.i64(50, 5000), Arg: r.intn(4)}, {Kind: []string{"fin", "rst", "silent", "half_frame"}[r.intn(4)], DelayUs: r.i64(50, 20_000), Arg: r.intn(40)}}
+				}
 			case 4:
 				// the answer cut short (its counts promise more than follows):
 				// what lies behind it in the read buffer is not part of it
@@ -214,7 +220,7 @@ func genXport(r *rng, seed uint64, focus, arm string) *plan.Plan {
 			}
 		case "C16":
 			if r.p(0.6) {
-				t.Acts = []plan.UpAction{{Kind: "truncate_udp", DelayUs: delay, Arg: r.intn(2)}}
+				t.Acts = []plan.UpAction{{Kind: "truncate_udp", DelayUs: delay, Arg: r.intn(4)}}
 				t.Ans.NAn = r.rng(1, 6)
 				k2 := []string{"reply", "reply", "reply", "silent", "fin", "rst"}[r.intn(6)]
 				d2 := r.i64(50, 300_000)
